@@ -127,13 +127,27 @@ CfgFill ==
   \cup {Cfg("fill-down", <<>>, <<>>, <<>>, 0, <<"--all">>)}
   \cup {Cfg("fill-empty", <<>>, <<>>, <<>>, 0, o) : o \in {<<>>, <<"-v", "X">>, <<"-v", "0">>, <<"-S", "-v", "0">>}}
 
-Configs == CfgCnt \cup CfgStat \cup CfgPct \cup CfgDsl \cup CfgMerge \cup CfgMergeC \cup CfgStep \cup CfgWin \cup CfgTop \cup CfgFrac \cup CfgHist \cup CfgFill
+\* ---- group-by values containing the comma (and the empty text): the group of a record is the TUPLE of its group-by values, so
+\* ("x,y","z") and ("x","y,z") are different groups whatever text an implementation joins them into.  (The engine renders DKVP
+\* with ";" as field separator so that values may contain commas.)
+RUsep == { <<P("g", "x,y"), P("h", "z"), P("x", "1")>>, <<P("g", "x"), P("h", "y,z"), P("x", "2")>>, <<P("g", "x,y"), P("h", "z"), P("x", "4")>>,
+           <<P("g", "x"), P("h", "y"), P("x", "8")>>, <<P("g", ","), P("h", ""), P("x", "16")>>, <<P("g", ""), P("h", ","), P("x", "32")>>,
+           <<P("g", "x"), P("x", "64")>> }
+CfgSep ==
+  { Cfg("count", G2, <<>>, <<>>, 0, <<>>), Cfg("count", G2, <<>>, <<>>, 0, <<"-n">>), Cfg("count-distinct", G2, <<>>, <<>>, 0, <<>>),
+    Cfg("count-distinct", G2, <<>>, <<>>, 0, <<"-n">>), Cfg("uniq", G2, <<>>, <<>>, 0, <<"-c">>), Cfg("uniq", G2, <<>>, <<>>, 0, <<"-n">>),
+    Cfg("count-similar", G2, <<>>, <<>>, 0, <<>>), Cfg("most-frequent", G2, <<>>, <<>>, 10, <<>>), Cfg("least-frequent", G2, <<>>, <<>>, 10, <<>>),
+    Cfg("stats1", G2, FX, A1, 0, <<>>), Cfg("step", G2, FX, S6, 0, <<>>), Cfg("top", G2, FX, <<>>, 1, <<>>),
+    Cfg("fraction", G2, FX, <<>>, 0, <<>>), Cfg("stats1", G2, FX, A1, 2, <<>>) }
+
+Configs == CfgSep \cup CfgCnt \cup CfgStat \cup CfgPct \cup CfgDsl \cup CfgMerge \cup CfgMergeC \cup CfgStep \cup CfgWin \cup CfgTop \cup CfgFrac \cup CfgHist \cup CfgFill
 Fam(cfgs, ru, ex, mx) == [cfgs |-> cfgs, ru |-> ru, ex |-> ex, mx |-> mx]
 Families ==
   { Fam(CfgCnt, RUcnt, ExLen, MaxLen), Fam(CfgStat, RUstat, ExLen, MaxLen + 1), Fam(CfgPct, RUpct, ExLen, 6), Fam(CfgDsl, RUdsl, ExLen, 6),
     Fam(CfgMerge, RUmerge, ExLen, ExLen + 1), Fam(CfgMergeC, RUmergec, ExLen, ExLen + 1),
     Fam(CfgStep, RUint, ExLen, MaxLen + 1), Fam(CfgWin, RUint, ExLen, MaxLen + 1), Fam(CfgTop, RUint, ExLen, MaxLen + 1),
-    Fam(CfgFrac, RUfrac, ExLen, MaxLen), Fam(CfgHist, RUhist, ExLen, MaxLen), Fam(CfgFill, RUfill, ExLen, MaxLen) }
+    Fam(CfgFrac, RUfrac, ExLen, MaxLen), Fam(CfgHist, RUhist, ExLen, MaxLen), Fam(CfgFill, RUfill, ExLen, MaxLen),
+    Fam(CfgSep, RUsep, ExLen, MaxLen) }
 \* x is a case: a configuration of a family with a short stream or one of the sampled longer ones.  (An operator with a parameter,
 \* enumerated by TLC as VerbsAggregateGen's initial states: a constant definition of the whole set would be evaluated, with all
 \* its samples, by every module that extends this one.)
